@@ -45,6 +45,16 @@ type Program struct {
 	Files []FileInfo
 }
 
+// intIs64: `int` is 64 bits wide on the analysed target.
+func (P *Program) intIs64() bool {
+	for _, p := range P.Pkgs {
+		if p.TypesSizes != nil {
+			return p.TypesSizes.Sizeof(types.Typ[types.Int]) == 8
+		}
+	}
+	return P.GOARCH != "386" && P.GOARCH != "arm"
+}
+
 type FileInfo struct {
 	Path   string `json:"path"`
 	SHA256 string `json:"sha256"`
